@@ -2,10 +2,10 @@ CONSTANTS
   JBlockInverted = FALSE
   JNo172 = FALSE
   JAllowFallsThrough = FALSE
-  TBlockInverted = FALSE
+  TBlockInverted = TRUE
   TNo172 = FALSE
-  Devs = {"ipv6-internal-destination-routed", "unsupported-allow-item-raises"}
+  Devs = {"names-never-resolved", "ipv6-literal-cut-at-colon", "list-items-compared-as-typed"}
   Tier = "quick"
-  Impl = "java"
+  Impl = "ts"
 SPECIFICATION Spec
 CHECK_DEADLOCK FALSE
